@@ -1080,6 +1080,7 @@ func TestVerifC04(t *testing.T) {
 	}
 
 	vcHistoryOracle(o, r)
+	vcCompositeHistory(o, r)
 	vcFamilyOracle(o, r)
 }
 
